@@ -338,12 +338,17 @@ class World(object):
             w.ev(req.conn, "fire", rid=req.rid, kind=req.kind, out="ok", val=_short(v))
             if w.armed and req.kind in ("publish", "subscribe", "connect") and not (req.kind == "publish" and v is None):
                 w.react(req.conn, req.kind + "_ok")
-            return None
+            # applications chain callbacks that return values; a Deferred shared between two requests
+            # would hand this value to the next one
+            return ("app-result", req.rid)
 
         def err(fl, req=req):
             req.fires.append((len(w.log), w.step, w.now(), "err", fl.value))
             w.ev(req.conn, "fire", rid=req.rid, kind=req.kind, out="err", val=type(fl.value).__name__,
                  exc=fl.value)
+            if w.armed and req.kind in ("publish", "subscribe", "unsubscribe") and req.ret == "deferred" and len(w.ctx_stack) > 0 \
+                    and not (w.ctx and w.ctx[0] == "api" and w.ctx[-1] == req.rid):
+                w.react(req.conn, "request_failed", allow_lost=True)
             return None
         d.addCallbacks(ok, err)
 
@@ -448,9 +453,9 @@ class World(object):
         self.armed.setdefault(a, []).append([trigger, action, arg])
         self.ev(self.cur.get(a), "arm", trigger=trigger, action=action, arg=arg)
 
-    def react(self, conn, trigger):
+    def react(self, conn, trigger, allow_lost=False):
         lst = self.armed.get(conn.a)
-        if not lst or self.cur.get(conn.a) is not conn or conn.lost:
+        if not lst or self.cur.get(conn.a) is not conn or (conn.lost and not allow_lost):
             return
         for item in list(lst):
             if item[0] == trigger:
@@ -458,6 +463,21 @@ class World(object):
                 _, action, arg = item
                 a = conn.a
                 self.ev(conn, "react", trigger=trigger, action=action)
+                if conn.lost:
+                    # reacting to a failure reported by the connection-loss handling: the calls go to the
+                    # protocol object the application still holds
+                    saved = self.cfg.get("use_lost")
+                    self.cfg["use_lost"] = True
+                    try:
+                        if action == "publish":
+                            self.op_publish(a, arg % 3)
+                        elif action == "subscribe":
+                            self.op_subscribe(a, 0, 1, 1)
+                        elif action == "unsubscribe":
+                            self.op_unsubscribe(a, 0, 1, 0)
+                    finally:
+                        self.cfg["use_lost"] = saved
+                    return
                 if action == "disconnect":
                     self.op_disconnect(a)
                 elif action == "publish":
@@ -1016,7 +1036,9 @@ class World(object):
             for i in conn.b_unsub:
                 ks.add(("UNSUBSCRIBE", i))
             return ks
-        track = outstanding()
+        # only what the client still owes: requests whose Deferred has not fired
+        owed = set(r.msgid for r in self.reqs if r.ret == "deferred" and not r.fires and isinstance(r.msgid, int))
+        track = set(k for k in outstanding() if k[1] in owed)
         start = len(conn.frames)
         n = 0
         counts = dict((k, 0) for k in track)
